@@ -56,7 +56,7 @@ func callChainOrder(c *core.Check, r *core.Rule, fn *ssa.Function, names []strin
 func c09(c *core.Check) {
 	p := c.Prog
 	c.Explain = "Thin structural clauses of box generation: the display → box class table of boxes.makeBox is the CSS Display table and covers every display value the validator and the display computer can produce; the anonymous-box passes run in the required order (table fix-up, flex and grid blockification, inline-in-block, block-in-inline). What each rewriting pass does to the tree is not decided. Also decided: (R7) the slot assignment of wrapTable (shared with C13.R2); (R8) the box classes tested by the anonymous-box passes are those CSS 2.1 names."
-	r1 := c.Rule("R1", "boxes.makeBox maps each (outside, inside) display pair and each table-* keyword to the box class of the CSS Display table, and every display value validation.display / tree.display can produce has a row (or is none)", 30)
+	r1 := c.Rule("R1", "boxes.makeBox maps each (outside, inside) display pair and each table-* keyword to the box class of the CSS Display table, and every display value validation.display / tree.display can produce has a row (or is none)", 33)
 	mb := p.Fn("html/boxes", "makeBox")
 	vd := p.Fn("css/validation", "display")
 	td := p.Fn("html/tree", "display")
@@ -257,7 +257,7 @@ func c09(c *core.Check) {
 	}
 
 	// ---- R4 display: none generates nothing
-	r4 := c.Rule("R4", "elementToBox returns before creating any box, touching the style or recording a footnote when the element's display is none: every call of makeBox, SetDisplay, SetFloat and every recursive call is unreachable when the test display == none holds", 3)
+	r4 := c.Rule("R4", "elementToBox returns before creating any box, touching the style or recording a footnote when the element's display is none: every call of makeBox, SetDisplay, SetFloat and every recursive call is unreachable when the test display == none holds", 6)
 	if etb := p.Fn("html/boxes", "elementToBox"); etb == nil {
 		r4.Anchor("html/boxes.elementToBox")
 	} else {
@@ -317,7 +317,7 @@ func c09(c *core.Check) {
 		}
 	}
 	c09Spans(c)
-	r6 := c.Rule("R6", "no call passes two same-typed arguments under each other's parameter names (swapped arguments): every pair of arguments named after the callee's parameters is aligned with them", 4)
+	r6 := c.Rule("R6", "no call passes two same-typed arguments under each other's parameter names (swapped arguments): every pair of arguments named after the callee's parameters is aligned with them", 8)
 	argNameRule(c, r6, "html/boxes", nil, 7)
 	r7 := c.Rule("R7", "table wrapping gives every cell its own grid slot: GridX is the cursor after skipping (in a loop) the columns occupied by cells spanning from previous rows, the cursor advances by Colspan, Rowspan is clamped to the rows left in the group and the spanned rows mark exactly the cell's columns", 5)
 	tableSlotRule(c, r7)
@@ -328,7 +328,7 @@ func c09(c *core.Check) {
 
 // c09Spans: a table cell spans at least one column (HTML 5: colspan is clamped to >= 1), while rowspan may be 0.
 func c09Spans(c *core.Check) {
-	r := c.Rule("R5", "NewTableCellBox reads colspan within [1, 1000] and rowspan within [0, 65534] (HTML): a cell that spans no column would share its grid slot with the next cell, and the grid is allocated with the spans as sizes", 4)
+	r := c.Rule("R5", "NewTableCellBox reads colspan within [1, 1000] and rowspan within [0, 65534] (HTML): a cell that spans no column would share its grid slot with the next cell, and the grid is allocated with the spans as sizes", 5)
 	spanBounds(c, r)
 }
 
@@ -514,7 +514,7 @@ func c11(c *core.Check) {
 		r1.Cond(strings.Join(got, "+") == strings.Join(want, "+"), n+" | white-space tests "+strings.Join(want, "+"), pos, "classes "+strings.Join(got, "+"), fmt.Sprintf("tests classes [%s], the behaviour confirmed by reading needs [%s]", strings.Join(got, "+"), strings.Join(want, "+")))
 	}
 
-	r2 := c.Rule("R2", "every white-space keyword the validator accepts has a case in text.newWhiteSpace; every text-align-all / text-align-last keyword is handled by layout.textAlign (whose fall-through only warns)", 12)
+	r2 := c.Rule("R2", "every white-space keyword the validator accepts has a case in text.newWhiteSpace; every text-align-all / text-align-last keyword is handled by layout.textAlign (whose fall-through only warns)", 17)
 	ws := p.Fn("css/validation", "whiteSpace")
 	nws := p.Fn("text", "newWhiteSpace")
 	if ws == nil || nws == nil {
@@ -559,9 +559,9 @@ func c11(c *core.Check) {
 
 	r3 := c.Rule("R3", "sibling symmetry in inline layout code: two assignments of one block that differ by a side (Top/Bottom, Left/Right) on the left and have the same shape on the right mirror every side name of that axis", 1)
 	sideSymmetryRule(c, r3, "html/layout", map[string]bool{"inline.go": true, "leader.go": true}, 1)
-	r4 := c.Rule("R4", "box-edge sums of the inline layout code mention margin, padding and border with the same sides", 3)
+	r4 := c.Rule("R4", "box-edge sums of the inline layout code mention margin, padding and border with the same sides", 6)
 	sideSumRule(c, r4, "html/layout", map[string]bool{"inline.go": true, "leader.go": true}, 5)
-	r5 := c.Rule("R5", "no call passes two same-typed arguments under each other's parameter names (swapped arguments): every pair of arguments named after the callee's parameters is aligned with them", 30)
+	r5 := c.Rule("R5", "no call passes two same-typed arguments under each other's parameter names (swapped arguments): every pair of arguments named after the callee's parameters is aligned with them", 46)
 	argNameRule(c, r5, "html/layout", map[string]bool{"inline.go": true, "leader.go": true}, 40)
 	argNameRule(c, r5, "text", nil, 5)
 	c11TextAlign(c)
@@ -569,7 +569,7 @@ func c11(c *core.Check) {
 	c11WordBreak(c)
 	c11Justify(c)
 	c11LastLine(c)
-	r9 := c.Rule("R9", "running extrema: every guarded update `if a < b { c = a }` of the inline layout and text code compares the new value with the variable it updates (the line's running top, bottom, width …): a comparison with another variable overwrites the extremum instead of extending it", 3)
+	r9 := c.Rule("R9", "running extrema: every guarded update `if a < b { c = a }` of the inline layout and text code compares the new value with the variable it updates (the line's running top, bottom, width …): a comparison with another variable overwrites the extremum instead of extending it", 32)
 	extremumRule(c, r9, "html/layout", 10)
 	extremumRule(c, r9, "text", 2)
 
@@ -591,7 +591,7 @@ func returnStringSets(p *core.Prog, fn *ssa.Function) []string {
 func c12(c *core.Check) {
 	p := c.Prog
 	c.Explain = "Thin structural clauses of page breaking: the forced and avoid break vocabularies tested by layout are exactly the CSS Fragmentation sets (with column variants only inside columns), every computed break value the validators can produce is classified, `always` computes to `page`, the between-siblings resolution prefers forced over avoid over auto, and the :nth() page arithmetic divides only by a non-zero step. Page geometry, break positions, orphans/widows and blank pages are not decided. Also decided: (R5) pageWidthOrHeight folded for all auto combinations; (R6) the orphans/widows tests as normalised linear inequalities.  (R7) recto/verso sides for both directions and the start/end page names read at breaks."
-	r1 := c.Rule("R1", "forcePageBreak tests {page,left,right,recto,verso} (+column in columns); avoidPageBreak tests {avoid,avoid-page} (+avoid-column in columns); blockLevelPageBreak's side set is {left,right,recto,verso} and its choice table lets page/column override everything and avoid* override auto; every break-before/after/inside value the validators emit (after always→page) is forced, avoid or auto", 25)
+	r1 := c.Rule("R1", "forcePageBreak tests {page,left,right,recto,verso} (+column in columns); avoidPageBreak tests {avoid,avoid-page} (+avoid-column in columns); blockLevelPageBreak's side set is {left,right,recto,verso} and its choice table lets page/column override everything and avoid* override auto; every break-before/after/inside value the validators emit (after always→page) is forced, avoid or auto", 38)
 	fpb := p.Fn("html/layout", "forcePageBreak")
 	apb := p.Fn("html/layout", "avoidPageBreak")
 	blp := p.Fn("html/layout", "blockLevelPageBreak")
@@ -690,14 +690,14 @@ func c12(c *core.Check) {
 	r2 := c.Rule("R2", "tree.pageTypeMatch divides and takes the remainder by the :nth() step only where it is proven non-zero", 2)
 	divisionRule(c, r2, func(fn *ssa.Function) bool { return fn.Name() == "pageTypeMatch" && inPkgs("html/tree")(fn) })
 
-	r3 := c.Rule("R3", "box-edge sums of the fragmentation code (the space kept at the bottom of a page for paddings and borders, page margins) mention margin, padding and border with the same sides", 4)
+	r3 := c.Rule("R3", "box-edge sums of the fragmentation code (the space kept at the bottom of a page for paddings and borders, page margins) mention margin, padding and border with the same sides", 6)
 	sideSumRule(c, r3, "html/layout", map[string]bool{"blocks.go": true, "pages.go": true, "columns.go": true}, 7)
 	c12PageBox(c)
 	c12Orphans(c)
 	c12Sides(c)
 	c12RepeatedGroups(c)
 	c12Retry(c)
-	r4b := c.Rule("R4", "no call passes two same-typed arguments under each other's parameter names (swapped arguments): every pair of arguments named after the callee's parameters is aligned with them", 26)
+	r4b := c.Rule("R4", "no call passes two same-typed arguments under each other's parameter names (swapped arguments): every pair of arguments named after the callee's parameters is aligned with them", 42)
 	argNameRule(c, r4b, "html/layout", map[string]bool{"blocks.go": true, "pages.go": true, "columns.go": true}, 40)
 }
 
@@ -783,7 +783,7 @@ func c09ClassTests(c *core.Check) {
 // c09Accumulators: a list handed to a box that keeps it is not reused as a buffer.
 func c09Accumulators(c *core.Check) {
 	p := c.Prog
-	r := c.Rule("R9", "box children are not shared with a buffer: in the box-building passes, a slice variable that was handed to a constructor which keeps it as the children of a box is never emptied by re-slicing (`x = x[:0]`) and filled again — the next run of boxes would overwrite the children of the box just built", 1)
+	r := c.Rule("R9", "box children are not shared with a buffer: in the box-building passes, a slice variable that was handed to a constructor which keeps it as the children of a box is never emptied by re-slicing (`x = x[:0]`) and filled again — the next run of boxes would overwrite the children of the box just built", 3)
 	retains := p.Retains()
 	n := 0
 	for _, pkg := range []string{"html/boxes", "html/layout"} {
